@@ -510,7 +510,11 @@ impl Report {
     }
     pub fn violation(&mut self, sig: impl Into<String>, detail: impl Into<String>, replay: Json) {
         let sig = sig.into();
-        let e = self.violations.entry(sig.clone()).or_insert_with(|| Violation { sig, detail: detail.into(), replay, count: 0 });
+        let e = self.violations.entry(sig.clone()).or_insert_with(|| {
+            let v = Violation { sig, detail: detail.into(), replay, count: 0 };
+            journal(&v);
+            v
+        });
         e.count += 1;
     }
     pub fn count(&mut self, key: &str, n: u64) {
@@ -621,6 +625,28 @@ impl Cfg {
 
 /// Runs cases `0..n` of a stage on `cfg.threads` threads. Each case gets its own reproducible RNG.
 /// `f(idx, rng, report)`; per-thread reports are merged into `rep`.
+/// Journal of first observations: one JSON line per (worker, signature), appended and flushed at the moment the
+/// oracle reports it. When the process under observation is killed from outside (the code under test exhausts
+/// memory, aborts in an allocation failure) the driver still has what the monitors saw before that.
+static JOURNAL: std::sync::OnceLock<Mutex<std::fs::File>> = std::sync::OnceLock::new();
+
+pub fn open_journal(path: &str) {
+    if let Ok(f) = std::fs::OpenOptions::new().create(true).append(true).open(path) {
+        let _ = JOURNAL.set(Mutex::new(f));
+    }
+}
+
+fn journal(v: &Violation) {
+    if let Some(j) = JOURNAL.get() {
+        use std::io::Write;
+        let line = Json::obj().set("sig", v.sig.clone()).set("detail", v.detail.chars().take(4000).collect::<String>()).set("replay", v.replay.clone()).to_string();
+        if let Ok(mut f) = j.lock() {
+            let _ = f.write_all(format!("{}\n", line.replace('\n', " ")).as_bytes());
+            let _ = f.flush();
+        }
+    }
+}
+
 pub fn run_stage<F>(cfg: &Cfg, rep: &mut Report, stage: &str, n: u64, f: F)
 where
     F: Fn(u64, &mut Rng, &mut Report) + Sync,
